@@ -31,8 +31,8 @@ BUDGET_S = {'quick': 90, 'thorough': 1500}
 
 def bounds(tier):
     if tier == 'quick':
-        return {'constants': 4, 'equations': '<= 2 exhaustive (2485 sets), 3: 7200 seeded sets (N=4) + 960 (N=5)', 'orders': 'all', 'hol_sets': 960}
-    return {'constants': [4, 5], 'equations': 'N=4: <= 3 exhaustive; N=4: 4 and N=5: 3, 20000 seeded sets each', 'orders': 'all', 'hol_sets': 6000}
+        return {'constants': 4, 'equations': '<= 2 exhaustive (2485 sets), 3: 7200 seeded sets (N=4) + 960 (N=5), chains: 256 seeded sets of 5 equations over 6 constants (0-2 f-equations)', 'orders': 'all', 'hol_sets': 960}
+    return {'constants': [4, 5], 'equations': 'N=4: <= 3 exhaustive; N=4: 4 and N=5: 3, 20000 seeded sets each; chains: 4800 sets of 5 equations over 6 constants, 800 sets of 6 over 7', 'orders': 'all', 'hol_sets': 6000}
 
 
 def universe(N):
@@ -55,6 +55,8 @@ def units(tier, seed):
         for i in range(16):
             us.append(('core', 5, 3, 'sample', (seed, i), 60))
         for i in range(16):
+            us.append(('core', 6, 5, 'chain', (seed, i), 16))
+        for i in range(16):
             us.append(('hol', seed, i, 60))
     else:
         us.append(('core', 4, 1, 'all', 0, 1))
@@ -65,6 +67,9 @@ def units(tier, seed):
         for i in range(80):
             us.append(('core', 4, 4, 'sample', (seed, i), 250))
             us.append(('core', 5, 3, 'sample', (seed, i), 250))
+        for i in range(80):
+            us.append(('core', 6, 5, 'chain', (seed, i), 60))
+            us.append(('core', 7, 6, 'chain', (seed, i), 10))
         for i in range(60):
             us.append(('hol', seed, i, 100))
     random.Random(seed).shuffle(us)
@@ -160,6 +165,15 @@ def run_core(u, out, twin):
     cache = {}
     if how == 'all':
         combos = [c for i, c in enumerate(itertools.combinations(uni, k)) if i % parts == arg]
+    elif how == 'chain':
+        # long chains of plain equations (deep proof forests: several edges reversed per merge), optionally with f-equations mixed in
+        rnd = random.Random('c17ch-%s-%s-%s' % (N, k, arg))
+        plain = [e for e in uni if not isinstance(e[0], tuple)]
+        fe = [e for e in uni if isinstance(e[0], tuple)]
+        combos = []
+        for _ in range(parts):
+            nf = rnd.choice([0, 0, 1, 2])
+            combos.append(tuple(rnd.sample(plain, k - nf) + rnd.sample(fe, nf)))
     else:
         rnd = random.Random('c17-%s-%s-%s' % (N, k, arg))
         combos = [tuple(rnd.sample(uni, k)) for _ in range(parts)]
